@@ -1,10 +1,11 @@
 #!/bin/sh
-# Builds the harness (both token-factory builds) from /repo's working tree, offline, and parses the specs.
+# Builds the harness (both token-factory builds) from /repo's working tree, offline, parses the specs and
+# generates the quick-tier TLC test suites (pure functions of the specification).
 set -e
 cd "$(dirname "$0")"
 export CARGO_NET_OFFLINE=true
-(cd harness && cargo build --release --offline 2>&1 | tail -3)
-(cd harness && cargo build --release --offline --features miniwasm --target-dir target-mw 2>&1 | tail -3)
-for f in spec/*.tla; do tla-sany "$f" >/dev/null 2>&1 || { echo "SANY failed: $f"; exit 1; }; done
+(cd harness && cargo build --release --offline 2>&1 | tail -2)
+(cd harness && cargo build --release --offline --features miniwasm --target-dir target-mw 2>&1 | tail -2)
+(cd spec && for f in Trace MilkyWay OwnershipMC TreasuryMC ArithTrace; do tla-sany "$f.tla" >/dev/null 2>&1 || { echo "SANY failed: $f"; exit 1; }; done)
 python3 tools/mwcheck.py --warm quick
 echo setup-ok
